@@ -398,6 +398,11 @@ def check(model, rep, tier):
               'the unconverted source', {'constructs': bad}, line=fi.node.lineno,
               witness='to_code of a function decorated with functools.wraps')
 
+  # ---------------------------------------------------------------- dependencies
+  rep.depends('C09', ['IFACE-ERASE'],
+              'the erased defaults are inserted into the tree directly (no template '
+              'copy): each position needs a node object of its own')
+
 
 def _enclosing(m, node):
   best = '<module>'
